@@ -1882,6 +1882,12 @@ Json IoHarness::gen_c06(uint64_t runseed, const std::string &tier) {
 		GenLimits lim;
 		double u = gen.unit();
 		lim.max_coeffs = u < 0.8 ? 3000 : u < 0.97 ? 40000 : (thorough ? 400000 : 120000);
+		{
+			// a few tables beyond 2^20 coefficients (several MB): whatever a writer or reader does in slices, through
+			// counters of limited width or at cfitsio's buffer limits shows only there (own stream)
+			Rng hg(runseed, "huge_table");
+			if (hg.chance(thorough ? 0.01 : 0.004)) { lim.min_coeffs = 1100000; lim.max_coeffs = 1600000; lim.max_dims = 4; lim.max_order = 3; lim.max_aux = 6; }
+		}
 		TableDesc d = gen_table(gen, lim);
 		plan["table"] = d.to_json();
 	}
